@@ -184,7 +184,7 @@ def jobs(tier, seed):
     for variant, fn, cls, W, mode, exact in BLOCKS:
         P_ = harness.load_program(variant)
         if not any(n == fn or n.endswith('::' + fn) for n in P_.funcs): continue      # internal helper renamed or removed: the scanner-level jobs still cover it
-        params = {'variants': [variant], 'fn': fn, 'cls': cls, 'W': W, 'argmode': mode, 'exact': exact, 'prop': 'C12', 'xcheck_every': 0}
+        params = {'variants': [variant], 'fn': fn, 'cls': cls, 'W': W, 'argmode': mode, 'exact': exact, 'prop': 'C12', 'xcheck_every': 4}
         J.append(Job(f'block-{variant}-{fn}', 'mirse.props.c12.leaf_block', params, T(tier, 120, 900),
                      f'{fn} ({variant}) on {W} fully symbolic bytes' + ('' if exact else ' (conservative: may stop early at HTAB, never late)'), groups=['ref'], mandatory=(W <= 16 and 'name' not in fn)))
     topL = 100
@@ -206,7 +206,7 @@ def jobs(tier, seed):
             if cls == 'value' and L > 8:
                 tp = (seed * 5 + L * 3) % L
                 fixed = {i: NOTAB for i in range(L) if i != tp}
-            params = {'variants': [variant], 'fn': fn, 'cls': cls, 'L': L, 'tag': tag, 'fixed': fixed, 'prop': 'C12', 'xcheck_every': 0}
+            params = {'variants': [variant], 'fn': fn, 'cls': cls, 'L': L, 'tag': tag, 'fixed': fixed, 'prop': 'C12', 'xcheck_every': 12}
             J.append(Job(f'{tag}-{cls}-L{L}', 'mirse.props.c12.leaf_scan', params, T(tier, 60, 600),
                          f'{fn} ({variant}), every buffer of {L} bytes' + (' (HTAB only at one position)' if fixed else ''), family=f'{tag}-{cls}', groups=['ref'],
                          mandatory=(L <= 16)))
